@@ -308,8 +308,10 @@ def main():
         wall_s=round(time.time() - t0, 2),
         violations=len(new_viol) + (1 if (broke and not new_viol) else 0),
     )
-    os.makedirs(common.EVIDENCE_DIR, exist_ok=True)
-    with open(os.path.join(common.EVIDENCE_DIR, f"{prop}.json"), "w") as fh:
+    # development runs (--no-proof, or another checkout through VERIF_REPO) never overwrite the evidence of record
+    ev_dir = common.EVIDENCE_DIR if (not args.no_proof and "VERIF_REPO" not in os.environ) else os.path.join(common.VERIF, "replays", "dev-evidence")
+    os.makedirs(ev_dir, exist_ok=True)
+    with open(os.path.join(ev_dir, f"{prop}.json"), "w") as fh:
         json.dump(jsonable(ev), fh, indent=1, sort_keys=True)
     for l in lines:
         print(l)
